@@ -150,6 +150,31 @@ def check_recv(ctx, oid="C17.1"):
                     R.check(oid, "TYPESTATE", fi, "payload of %d bytes, peer closes after %d of %d bytes (%s): an error, not a message and not an endless loop" % (L, cut, total, "chunks" if frags else "whole"),
                             kind == "raise", "with a %d-byte payload and the peer closing after %d bytes recv_msg gives %s %s" % (L, cut, kind, tm.show(val)[:120]),
                             example="the peer closing the connection in the middle of a large message (payload of %d bytes)" % L)
+    # the size limit: integer constants of the module that the receive path refers to BY NAME (MAX_SIZE) and that lie at or
+    # below the encoder's limit -- a payload of exactly that size, and of one byte less, is a message msg_ser builds, so
+    # recv_msg returns it (a ">=" where the encoder says ">" refuses the largest message the encoder produces)
+    evc = ctx.evaluator()
+    mx = evc.const("bits.p2p", "MAX_SIZE")
+    named = set()
+    for f in reach:
+        for n in _ast.walk(f.node):
+            if isinstance(n, _ast.Name) and isinstance(n.ctx, _ast.Load) and n.id.isupper():
+                try:
+                    v = evc.const(f.module.name, n.id)
+                except Exception:
+                    v = None
+                if isinstance(v, int) and not isinstance(v, bool) and v > (1 << 22) and isinstance(mx, int) and v <= mx:
+                    named.add(v)
+    if isinstance(mx, int) and not isinstance(mx, bool):
+        named.add(mx)
+    for c in sorted(named)[:3]:
+        for L in (c - 1, c):
+            kind, val, want, st = play(L, [])
+            n_scen += 1
+            ok = kind == "return" and isinstance(val, (list, tuple)) and len(val) == 3 and all(tm.veq(a, b) for a, b in zip(val, want)) and not st.unmodelled
+            R.check(oid, "TYPESTATE", fi, "payload of %#x bytes (the size limit %#x%s; msg_ser builds such a message): returns the message" % (L, c, " less one" if L < c else ""), ok,
+                    "with a %#x-byte payload (msg_ser accepts up to %#x) recv_msg gives %s %s" % (L, mx, kind, tm.show(val)[:160]), example="a payload of exactly %#x bytes" % L)
+    R.stat("recv_size_limits", sorted(named)[:3])
     R.stat("recv_size_thresholds", sorted(consts)[:4])
     R.floor(oid, n_scen, 60, "recv_scenarios")
     return True
